@@ -114,6 +114,7 @@ def run(ck, m):
     ck.rule('C02.l', 'no acknowledged increment is lost (C01.e, repeated): the increment stores exactly value + argument or refuses — a sum that is '
                      'clamped or wrapped at the i32 bounds is acknowledged with a new version while its amount is dropped')
     _alias.repeat(ck, m, 'C01', ('C01.e',), 'C02.l', key_filter=lambda k: 'adds-exactly-or-refuses' in k or 'adds-its-argument' in k)
+    refusal_decided_by_versions_only(ck, m)
 
 
 def transports_answer_a_refusal_as_a_refusal(ck, m, rule='C02.m'):
@@ -780,3 +781,89 @@ def version_arithmetic_saturates(ck, m):
           'the write guard of Database.map, the lock stays poisoned and every later set, set-safe, increment, remove or get-safe on that '
           'database fails; in a release build the sum wraps to i32::MIN and a write that is not older is refused' % bad, '')
     ck.floor('C02.j', n, 3, 'functions doing version arithmetic')
+
+
+controlling_switches = locks.controlling_switches
+
+
+def entry_fields_in_slice(m, body, operand, adt_suffix='bo::Value', depth=1):
+    """names of the fields of `adt_suffix` that are read in the backward slice of `operand` (through every rvalue kind and through call
+    arguments; a crate-local callee that is handed the entry is looked into, `depth` levels)"""
+    seen = set()
+    fields = {}
+
+    def note(place, where):
+        for e in place.get('p', ()):
+            if e[0] == 'f' and str(e[2]).endswith(adt_suffix):
+                fields.setdefault(e[3] or str(e[1]), where)
+
+    def visit_op(o, where):
+        if 'k' in o or 'rt' in o:
+            return
+        p = o.get('c') or o.get('m')
+        note(p, where)
+        visit_local(p['l'])
+
+    def visit_local(l):
+        if l in seen:
+            return
+        seen.add(l)
+        for (bi, si, kind, pl) in body.defs().get(l, []) + body.defs().get(('partial', l), []):
+            if kind == 'call':
+                for a in pl['args']:
+                    visit_op(a, body.loc(bi))
+                cb_ = m.prog.bodies.get(callee(pl))
+                if cb_ is not None and depth > 0 and any(adt_suffix in str(x) for x in cb_.locals[1:cb_.argc + 1]):
+                    for cbi, bl in enumerate(cb_.blocks):
+                        if bl.get('cleanup'):
+                            continue
+                        for s_ in bl['s']:
+                            if s_['k'] == 'assign':
+                                rv = s_['r']
+                                for o in ([rv.get('o')] if rv.get('o') else []) + [rv.get('a'), rv.get('b')] + list(rv.get('ops', ())):
+                                    if o and ('c' in o or 'm' in o):
+                                        note(o.get('c') or o.get('m'), cb_.loc(cbi))
+                                if rv.get('p'):
+                                    note(rv['p'], cb_.loc(cbi))
+            else:
+                rv = pl if 'k' in pl and pl['k'] != 'assign' else pl['r']
+                k = rv['k']
+                if k in ('use', 'cast', 'repeat'):
+                    visit_op(rv['o'], body.loc(bi))
+                elif k in ('ref', 'rawptr', 'discr'):
+                    note(rv['p'], body.loc(bi))
+                    visit_local(rv['p']['l'])
+                elif k == 'bin':
+                    visit_op(rv['a'], body.loc(bi))
+                    visit_op(rv['b'], body.loc(bi))
+                elif k == 'un':
+                    visit_op(rv['a'], body.loc(bi))
+                elif k == 'agg':
+                    for o in rv['ops']:
+                        visit_op(o, body.loc(bi))
+    visit_op(operand, None)
+    return fields
+
+
+def refusal_decided_by_versions_only(ck, m, rule='C02.n'):
+    ck.rule(rule, 'a versioned write to an existing key is refused or accepted on versions alone: no branch that decides whether the store '
+                  'builds its VersionError depends on the state or the value of the stored entry — get-safe reports the version of a tombstone '
+                  'like any other, so a stale writer that is let through because the entry "is removed" reuses a version number that was '
+                  'already handed out (two writers with the same base both succeed, the stored version goes down)')
+    sbod = store_fn(m)
+    sites = version_error_sites(m, sbod)
+    bad = []
+    nsw = 0
+    for v, _op, _b in sites:
+        for sw in controlling_switches(sbod, v):
+            nsw += 1
+            t = sbod.term(sw)
+            f = entry_fields_in_slice(m, sbod, t['o'])
+            for name in ('state', 'value'):
+                if name in f:
+                    bad.append('%s (read at %s, decides at %s)' % (name, f[name], sbod.loc(sw)))
+    okf = bool(sites) and nsw > 0 and not bad
+    ck.ob(rule, short(sbod.id), 'refusal-decided-by-versions-only', okf,
+          'the %d branch(es) that decide the refusal of the store read only versions of the entry' % nsw if okf else
+          'the refusal of a versioned write depends on the stored entry\'s %s: a stale set-safe is accepted or refused by what the key '
+          'currently holds, not by the version get-safe reported' % sorted(set(bad)), '%s:%s' % (sbod.file, sbod.line))
